@@ -87,6 +87,13 @@ Proof.
   rewrite forallb_forall in S. specialize (S i). apply Bool.eqb_prop. apply S. apply in_seq. lia.
 Qed.
 
+Lemma getter_setter_roundtrip f m : 0 <= m < 256 ->
+  mk_mask flag_names f (SelList (keep_names flag_names f m)) = m
+  /\ forall i, (i < 8)%nat ->
+       mem_string (nth i doc_names ""%string) (keep_names flag_names f m)
+       = Z.testbit m (match f with FV2 => 7 - Z.of_nat i | _ => Z.of_nat i end).
+Proof. intros H. split; [exact (roundtrip f m H)|]. intros i Hi. exact (getter_spec f m i H Hi). Qed.
+
 (* ---------- weights ---------- *)
 Lemma weights_select_roundtrip known names :
   weights_select known (map (fun i => nth i known ""%string) (weights_select known names))
